@@ -196,9 +196,21 @@ def run_shard(spec, res):
             res.case(["simplify", d, repr(e.annotations)], nontrivial=bool(e.annotations))
             res.count("simplify_judged")
             want = list(e.annotations) + [a for x in e.args if isinstance(x, claripy.ast.Base) for a in top_rel(x)]
-            for a in want:
-                if not has(s.annotations, a):
-                    res.violation({"kind": "annotation", "what": "simplify-dropped-annotation", "case": d, "expr": repr(e)[:200], "expr_annotations": repr(e.annotations), "result": repr(s)[:200], "result_annotations": repr(s.annotations), "observed": repr(a)})
+            # the answer must not depend on whether it comes from simplify's cache: ask again, and once more after the
+            # un-annotated expression went through the same cache
+            results = [("first call", s)]
+            try:
+                results.append(("second call", claripy.simplify(e)))
+                bare = e.clear_annotations() if hasattr(e, "clear_annotations") else e
+                claripy.simplify(bare)
+                results.append(("call after the un-annotated expression was simplified", claripy.simplify(e)))
+            except claripy.errors.ClaripyError as ex:
+                res.count("simplify_raised_again:" + type(ex).__name__)
+            res.count("simplify_repeat_judged", len(results) - 1)
+            for label, s_ in results:
+                bad = [a for a in want if not has(s_.annotations, a)]
+                if bad:
+                    res.violation({"kind": "annotation", "what": "simplify-dropped-annotation", "when": label, "case": d, "expr": repr(e)[:200], "expr_annotations": repr(e.annotations), "result": repr(s_)[:200], "result_annotations": repr(s_.annotations), "observed": repr(bad[0])})
                     break
     elif k == "solver":
         for i in range(spec["n"]):
